@@ -70,7 +70,7 @@ func runC01(r *core.Run) {
 		"non-trivial = >= 2 goroutines or a nested aggregate or a line > 16 KiB; plus live-runtime rounds (see live_*)")
 	r.Assume("the generator's reading of the runtime traceback format and of the linker's PathToPrefix escaping",
 		"64-bit host (pointer ceiling 2^63-1)")
-	n := r.N(80000, 400000)
+	n := r.N(80000, 1500000)
 	maxG := r.N(8, 120)
 	nf := len(gen.AllFormats())
 	core.Parallel(n, workers(), func(i int) {
